@@ -10,6 +10,7 @@ import (
 	"path/filepath"
 	"sort"
 	"strconv"
+	"sync/atomic"
 	"testing"
 	"time"
 )
@@ -161,6 +162,13 @@ func WorkerMain(t *testing.T) {
 		if err == nil {
 			jr.f = f
 			defer f.Close()
+		}
+	}
+	var lastBeat atomic.Int64
+	Beat = func() {
+		now := time.Now().UnixMilli()
+		if last := lastBeat.Load(); jr.f != nil && now-last > 300 && lastBeat.CompareAndSwap(last, now) {
+			jr.f.WriteString("H\n")
 		}
 	}
 	markStderr := os.Getenv("VERIF_MARK_STDERR") != ""
